@@ -27,6 +27,10 @@ type Obligation struct {
 	Seconds float64
 	Model   string
 	File    string
+	// SkipFacts: indices of facts left out of the script (used by the vacuity guard to leave out the goals of
+	// obligations that were NOT discharged: they are not assumptions, and assuming a false goal would make every unit
+	// with a genuine violation look vacuous)
+	SkipFacts map[int]bool
 }
 
 type VC struct {
@@ -52,6 +56,9 @@ type VC struct {
 	strOfArr  map[string]string // content-array constant of []byte(s) -> s
 	defs      map[string]string // defined name -> term
 	globalsDone map[string]bool
+	fnStore   map[string][3]string // heap version name -> (object, function value, previous version) of the store that produced it (function-typed fields only)
+	allocNames map[string]bool     // references created by allocRef: pairwise distinct
+	opaque    map[string]bool // spec fns whose definition is hidden in this unit (clause `opaque pkg.f ...`)
 	skipUndischarged bool // reach script: leave out the goals of obligations that were not discharged
 	writeCount map[string]int // number of updates per heap key (static bound for position-wise stream comparison)
 	noQuant   bool // lock-discipline VCs: quantified background axioms are dropped (weakening only)
@@ -245,6 +252,10 @@ func (vc *VC) allocRef(st *State, prefix string) string {
 	r := vc.fresh(prefix, "Int")
 	vc.axiom("(= " + r + " (+ " + t + " 1))")
 	vc.hset(st, "top", "Int", r)
+	if vc.allocNames == nil {
+		vc.allocNames = map[string]bool{}
+	}
+	vc.allocNames[r] = true
 	return r
 }
 
@@ -291,6 +302,25 @@ func (vc *VC) readKey(st *State, key string, t types.Type, ref string) Val {
 		h := vc.hget(st, key+c.suf, "(Array Int "+c.sort+")")
 		out[i] = "(select " + h + " " + ref + ")"
 	}
+	// read-over-write peephole for function values: select(store(h, a, f), a) = f.  Keeping the closure's own name
+	// lets a call through a function-typed field that was just set (s := T{cmp: func...}; s.cmp(x)) resolve to its body.
+	if _, isFn := t.Underlying().(*types.Signature); isFn && len(cs) == 1 {
+		h := st.heap[key+cs[0].suf]
+		for {
+			rec, ok := vc.fnStore[h]
+			if !ok {
+				break
+			}
+			if rec[0] == ref {
+				out[0] = rec[1]
+				break
+			}
+			if !(vc.allocNames[rec[0]] && vc.allocNames[ref]) {
+				break // the intervening store may alias
+			}
+			h = rec[2] // a store to a different allocation: look further back
+		}
+	}
 	return Val{T: t, C: out}
 }
 
@@ -303,6 +333,12 @@ func (vc *VC) writeKey(st *State, key string, t types.Type, ref string, v Val) {
 		s := "(Array Int " + c.sort + ")"
 		h := vc.hget(st, key+c.suf, s)
 		vc.hset(st, key+c.suf, s, "(store "+h+" "+ref+" "+v.C[i]+")")
+		if _, isFn := t.Underlying().(*types.Signature); isFn && len(cs) == 1 {
+			if vc.fnStore == nil {
+				vc.fnStore = map[string][3]string{}
+			}
+			vc.fnStore[st.heap[key+c.suf]] = [3]string{ref, v.C[i], h}
+		}
 	}
 }
 
@@ -429,6 +465,11 @@ func (vc *VC) zeroObject(st *State, t types.Type, ref string) {
 				}
 			}
 			if isAggregate(f.Type()) {
+				if ts := f.Type().String(); ts == "sync.Mutex" || ts == "sync.RWMutex" {
+					// the zero value of a mutex is an unlocked mutex
+					h := vc.hget(st, "held", "(Array Int Bool)")
+					vc.hset(st, "held", "(Array Int Bool)", "(store "+h+" "+vc.emb(t, f.Name(), ref)+" false)")
+				}
 				vc.zeroObject(st, f.Type(), vc.emb(t, f.Name(), ref))
 				continue
 			}
